@@ -194,6 +194,57 @@ pub fn run(tier: Tier) -> Run {
             (out, oc, has_params)
         })
         .collect();
+    // ---- (b') the same values in EVERY instruction that can host the kind (OpDecorateId, OpMemberDecorate,
+    //      OpExecutionModeId, every image / memory instruction ..): the parser must deliver the grammar's parameter kinds
+    //      whatever the host (enumerants: all; masks: no bit, each bit, all bits)
+    {
+        let mut hosts: Vec<(&crate::golden::GInst, usize, &'static str)> = vec![];
+        for gi in &g.insts {
+            for (pos, (k, q)) in gi.value_operands().iter().enumerate() {
+                if g.params.contains_key(k.as_str()) && *q != crate::golden::Quant::ZeroOrMore {
+                    hosts.push((gi, pos, kind_static(k)));
+                }
+            }
+        }
+        let host_viols: Vec<Vec<Viol>> = hosts
+            .par_iter()
+            .map(|(gi, pos, k)| {
+                let mut out = vec![];
+                let values: Vec<(bool, u32)> = if g.is_mask_kind(k) {
+                    let m = &g.masks[*k];
+                    let mut v: Vec<(bool, u32)> = m.nonzero().iter().map(|b| (true, b.1)).collect();
+                    v.push((true, 0));
+                    v.push((true, m.all()));
+                    v
+                } else {
+                    g.enums[*k].variants.iter().map(|(_, n)| (false, *n)).collect()
+                };
+                for (is_mask, n) in values {
+                    let args = if is_mask { crate::universe::mask_with_params(k, n, 500) } else { crate::universe::enum_with_params(k, n, 500) };
+                    let inst = crate::universe::with_operand(gi, *pos, args);
+                    let words = enc(&inst);
+                    match parse_one(&words) {
+                        Ok(insts) if insts.len() == 1 && model::from_dr(&insts[0]) == inst => {}
+                        got => {
+                            if out.len() < 3 {
+                                out.push(viol(
+                                    format!("C17:{}::{:#x}:parser:in-{}", k, n, gi.name),
+                                    format!("parser fed {} (value {:#x} of {} hosted by Op{}) gave {:?}", inst.short(), n, k, gi.name, got.map(|v| v.iter().map(|i| format!("{:?}", i.operands)).collect::<Vec<_>>())),
+                                    json!({"kind": "c17-host", "operand_kind": k, "value": n, "host": gi.name}),
+                                ));
+                            }
+                        }
+                    }
+                }
+                out
+            })
+            .collect();
+        for v in host_viols {
+            evals += 1;
+            run.add_all(v);
+        }
+        run.outcome("host_instructions", hosts.len() as u64);
+    }
     for (vs, oc, hp) in res {
         evals += 1;
         if hp {
@@ -331,6 +382,45 @@ pub fn run(tier: Tier) -> Run {
             }
             run.outcome("id_rewrites", 3);
         }
+    }
+    // rewriting an id inside REAL instructions, to a value that another id operand of the same instruction already has
+    // (equal ids in two places must not change how the instruction is encoded): every opcode, fullest shape and the
+    // shape with three repetitions of its variadic operand
+    {
+        let shapes: Vec<Inst> = g.insts.iter().flat_map(|gi| { let mut v = vec![crate::universe::fullest(gi)]; if crate::universe::has_variadic(gi) { v.extend(crate::universe::pattern_shapes(tier).into_iter().filter(|s| s.inst.opcode == gi.opcode && s.id.ends_with(":pattern:var3")).map(|s| s.inst)); } v }).collect();
+        let res: Vec<Vec<Viol>> = shapes
+            .par_iter()
+            .map(|m| {
+                let mut out = vec![];
+                let Some(base) = model::to_dr(m) else { return out };
+                let before = base.assemble();
+                let id_pos: Vec<usize> = base.operands.iter().enumerate().filter(|(_, o)| o.id_ref_any().is_some()).map(|(i, _)| i).collect();
+                // word offset of operand i in the assembled instruction
+                let off = |i: usize| -> usize { 1 + base.result_type.is_some() as usize + base.result_id.is_some() as usize + base.operands[..i].iter().map(|o| { let t = dr::Instruction::new(spirv::Op::Nop, None, None, vec![o.clone()]); t.assemble().len() - 1 }).sum::<usize>() };
+                for &i in &id_pos {
+                    for &j in &id_pos {
+                        let target = base.operands[j].id_ref_any().unwrap();
+                        let mut inst = base.clone();
+                        match inst.operands[i].id_ref_any_mut() {
+                            Some(slot) => *slot = target,
+                            None => continue,
+                        }
+                        let after = inst.assemble();
+                        let mut want = before.clone();
+                        want[off(i)] = target;
+                        if after != want && out.len() < 2 {
+                            out.push(viol(format!("C17:id-rewrite:{}", m.name()), format!("Op{}: rewriting id operand {} to the value of id operand {} ({}) gives {:x?}, expected exactly word {} changed: {:x?}", m.name(), i, j, target, after, off(i), want), json!({"kind": "c17-alias", "instruction": m.short(), "operand": i, "as_operand": j})));
+                        }
+                    }
+                }
+                out
+            })
+            .collect();
+        for v in res {
+            evals += 1;
+            run.add_all(v);
+        }
+        run.outcome("alias_rewrites_on_real_instructions", shapes.len() as u64);
     }
     // payload round trips: every declared enumerant / single bit / all bits
     for (k, e) in &g.enums {
